@@ -10,7 +10,7 @@ Order (BUILDERS.md): regen facts -> lake build (Props, Tie, driver) -> audit -> 
 import glob, json, os, re, subprocess
 from vlib import *
 
-CLEAN_TAIL = "st=0/0/0/0 after=ok log2=999 st2=0/0/0/0"
+CLEAN_TAIL = "st=0/0/0/0/0 after=ok log2=999 st2=0/0/0/0/0"
 NKINDS = 21
 APIS = ("run", "call", "try", "errstr")
 KIND_NAMES = ["getter", "forEach", "sortcmp", "generator", "nestedRun", "callable", "nestedRun-swallow",
@@ -67,8 +67,10 @@ class Gen:
             kind = r.randrange(13, NKINDS) if r.random() < 0.4 else r.randrange(NKINDS)
             reps = r.randint(1, 3) if kind == 1 else 1
             return ("N", kind, reps, self.block(depth + 1, KIND_NAMES[kind]))
-        if x < 0.87:
+        if x < 0.85:
             return ("Q", self.block(depth + 1, "job"))
+        if x < 0.87:
+            return ("H", self.block(depth + 1, "thenable-job"))
         if x < 0.905:
             return ("A", self.block(depth + 1, "async-pre"), self.block(depth + 1, "async-post"))
         if x < 0.93:
@@ -92,8 +94,8 @@ def render(block):
             out += ["Y", str(s[1]), str(s[2]), render(s[3]), render(s[4]), render(s[5])]
         elif op == "N":
             out += ["N", str(s[1]), str(s[2]), render(s[3])]
-        elif op == "Q":
-            out += ["Q", render(s[1])]
+        elif op in ("Q", "H"):
+            out += [op, render(s[1])]
         elif op == "A":
             out += ["A", render(s[1]), render(s[2])]
         elif op == "B":
@@ -187,12 +189,14 @@ def spec_judge(case, ans, base):
             if exp_intr and ans["log"].startswith(exp_log):
                 return "script-code-ran-after-interrupt"
             return "wrong-log"
-    f, j, cdepth, tdepth = ans["st"].split("/")
+    f, j, cdepth, tdepth, arun = ans["st"].split("/")
     if f != "0":
         return "flag-not-cleared"
+    if arun != "0":
+        return "stale-async-runner"
     if api in ("try", "errstr") and not exp_intr:
         # Runtime.Try / Exception.Error() return without draining the job queue; the jobs run in the follow-up call
-        if cdepth != "0" or tdepth != "0" or ans["st2"] != "0/0/0/0":
+        if cdepth != "0" or tdepth != "0" or ans["st2"] != "0/0/0/0/0":
             return "vm-stacks-not-unwound"
         if ans["after"] != "ok" or not (ans["log2"] == "999" or ans["log2"].startswith("999,")):
             return "runtime-not-reusable"
@@ -201,7 +205,7 @@ def spec_judge(case, ans, base):
         return "job-queue-not-dropped"
     if ans["after"] != "ok" or ans["log2"] != "999":
         return "runtime-not-reusable"
-    if ans["st"] != "0/0/0/0" or ans["st2"] != "0/0/0/0":
+    if ans["st"] != "0/0/0/0/0" or ans["st2"] != "0/0/0/0/0":
         return "vm-stacks-not-unwound"
     return None
 
@@ -272,9 +276,9 @@ def main(ctx):
     threads = []
     if ok:
         def audit_props():
-            ctx.stats["theorems_props"] = ctx.audit("GojaModel.C15.Props", expect_min=20)
+            ctx.stats["theorems_props"] = ctx.audit("GojaModel.C15.Props", expect_min=34)
         def audit_tie():
-            ctx.stats["theorems_tie"] = ctx.audit("GojaModel.C15.Tie", expect_min=15)
+            ctx.stats["theorems_tie"] = ctx.audit("GojaModel.C15.Tie", expect_min=18)
         threads = [threading.Thread(target=audit_props), threading.Thread(target=audit_tie)]
         if not quick:
             threads.append(threading.Thread(target=lambda: ctx.leanchecker("GojaModel.C15.Props")))
@@ -511,7 +515,7 @@ def main(ctx):
                 sym = "script-code-ran-after-interrupt"
             elif m.group(3) != "0":
                 sym = "catch-or-finally-ran"
-            elif m.group(4) != "0/0/0/0" or m.group(5) != "ok" or m.group(6) != "1":
+            elif m.group(4) != "0/0/0/0/0" or m.group(5) != "ok" or m.group(6) != "1":
                 sym = "unclean-after"
             elif m.group(7) != "ok":
                 sym = m.group(7).split(":")[0]
@@ -524,8 +528,45 @@ def main(ctx):
             if True:
                 ctx.violation("tickcase:%s:%s" % (sc, sym), "%s: %s -> %s (%d cases)" % (sym, l, o, len(lst)),
                               {"kind": "schedule", "lines": [l], "symptom": sym, "observed": o,
-                               "expected": "res=intr:%s ticks=%s bad=0 st=0/0/0/0 after=ok ticks2=1 post=ok" % (l.split()[3], l.split()[2])})
+                               "expected": "res=intr:%s ticks=%s bad=0 st=0/0/0/0/0 after=ok ticks2=1 post=ok" % (l.split()[3], l.split()[2])})
     ctx.stats["tickcases"] = {"cases": len(tlines), "failing": {"%s/%s" % k: len(v) for k, v in tick_fail.items()}}
+
+    # 3c. the second run loop: the same kind of cases with the profiler enabled, so that vm.run() delegates to
+    #     vm.runWithProfiler() (executed, not only shape-tied).  Model and spec judge are the same.
+    pidx = [i for i, c in enumerate(all_cases) if c.get("corpus")] + list(range(len(base_cases), len(all_cases), 5 if quick else 3))
+    pidx = sorted(set(pidx))
+    plines = ["profile on"] + [lines[i] for i in pidx] + [l for l in tlines if int(l.split()[2]) <= (3 if quick else 12)] + ["profile off"]
+    rc, pout, err = run_harness(ctx, h, plines, timeout=600)
+    prof_bad = []
+    if rc != 0 or len(pout) != len(plines) or pout[0] != "profile on" or pout[-1] != "profile off":
+        ctx.obligation("corr:profiler-run", "correspondence", False, "rc=%d %s %s" % (rc, pout[:1], err[-300:]))
+    else:
+        pm = None
+        if model:
+            rc2, pm, _ = ctx.run_lines([model], plines)
+            if rc2 != 0 or len(pm) != len(plines):
+                pm = None
+        for j, i in enumerate(pidx, start=1):
+            ctx.count()
+            c = all_cases[i]
+            a = parse_ans(pout[j])
+            m = parse_ans(pm[j]) if pm else None
+            sym = spec_judge(c, a, base.get((c["api"], c["prog"])))
+            if sym is not None:
+                prof_bad.append((plines[j], pout[j], "spec:" + sym))
+            elif m is not None and (a["res"] != m["res"] or a["log"] != m["log"] or tail(a) != tail(m)):
+                prof_bad.append((plines[j], pout[j], "model:" + pm[j]))
+        for j in range(1 + len(pidx), len(plines) - 1):
+            ctx.count()
+            _, sc, n, v = plines[j].split()
+            exp = "res=intr:%s ticks=%s bad=0 st=0/0/0/0/0 after=ok ticks2=1 post=ok" % (v, n)
+            if pout[j] != exp:
+                prof_bad.append((plines[j], pout[j], "spec:tickcase expected " + exp))
+        ctx.obligation("corr:profiler-run", "correspondence", True, "")
+        for l, o, why in prof_bad[:1]:
+            ctx.violation("profiler-loop:" + why.split(":")[1].split()[0], "with the profiler enabled (vm.runWithProfiler): %s -> %s (%s; %d cases)" % (l, o, why, len(prof_bad)),
+                          {"kind": "schedule", "lines": ["profile on", l, "profile off"], "observed": o, "why": why})
+    ctx.stats["profiler_loop"] = {"cases": len(plines) - 2, "failing": len(prof_bad)}
     ctx.log("deterministic part done: %d cases, %d disagreements, %d spec failures" % (len(all_cases), len(disagree), len(failing)))
     # 4. asynchronous soak
     race = not quick
@@ -541,7 +582,10 @@ def main(ctx):
     env["GORACE"] = "halt_on_error=0"
     for s in range(shards):
         line = "soak %d %d %d\n" % (ctx.seed * 1000 + s, rounds, 400)
-        p = subprocess.Popen([hs], stdin=subprocess.PIPE, stdout=subprocess.PIPE, stderr=subprocess.PIPE, text=True, env=env)
+        penv = dict(env)
+        if s == shards - 1:
+            penv["C15_PROFILE"] = "1"      # the last shard runs under the profiler: vm.runWithProfiler is the run loop
+        p = subprocess.Popen([hs], stdin=subprocess.PIPE, stdout=subprocess.PIPE, stderr=subprocess.PIPE, text=True, env=penv)
         p.stdin.write(line)
         p.stdin.close()
         p.stdin = None            # so that communicate() below does not touch the closed pipe
